@@ -415,6 +415,15 @@ func init() {
 				}
 			}
 		}
+		// 7e. WithMassive(nil) means context.Background()
+		for _, op := range []string{"out-text", "walk", "mkdir"} {
+			d := NewDrv(op, ok2)
+			d.NilCtx = true
+			add("nilctx/"+op, d, k1, w2)
+			g := NewDrv(op, "- a\n  -\n- c\n")
+			g.NilCtx = true
+			add("nilctx/genfail/"+op, g, k1, w2)
+		}
 		// 8. # heading roots (the parser flag shared by all generator workers)
 		add("sharp/out-text", NewDrv("out-text", "# a\n# b\n"), k1, w2)
 		return out
